@@ -47,6 +47,10 @@ func main() {
 	switch sub {
 	case "kv":
 		err = core.RunKv(w, *seed, *tier, *replay)
+	case "list":
+		err = core.RunFamily(core.ListFamily(), w, *seed, *tier, *replay)
+	case "hash":
+		err = core.RunFamily(core.HashFamily(), w, *seed, *tier, *replay)
 	case "gen-facts":
 		err = core.GenFacts(*leanDir)
 	default:
